@@ -55,6 +55,28 @@ def tok_lemmas():
         for w in ws:
             out.append(T.word_in_group("C08", 138, "d_" + unit, w, unit))
             out.append(T.word_in_group("C08", 137, "d_" + unit, w, unit))
+    # the amount group accepts every decimal numeral (N is not truncated)
+    import z3
+    from ..rx.z3re import X, query, DIG
+    from ..core import Result, HOLDS, VIOLATED, INCONCLUSIVE
+    pats, _ = e2.patterns()
+    x = X()
+    r, dt, ms = query([z3.InRe(x, z3.Plus(DIG)), z3.Length(x) <= 12, z3.Not(z3.InRe(x, pats[137].groups["num"]))], 60000) if 137 in pats and "num" in pats[137].groups else ("unknown", 0, None)
+    res = Result("C08.TOK-VAL[137:num = every numeral]", "z3", INCONCLUSIVE, seconds=dt, bounds="every digit string of length <= 12 is in the language of the amount group", functions=["pattern 137 group num"])
+    if r == "unsat":
+        res.verdict, res.detail = HOLDS, "digits+ (<= 12 digits) included in L(num)"
+    elif r == "sat":
+        a = api(int(ms))(ms)
+        text = "%s days" % ms
+        p_ = C.ctparse(text, ts=datetime(2018, 3, 7, 12, 43), timeout=0)
+        bad = str(p_.resolution) != "%d days" % int(ms)
+        res.cex = {"numeral": ms}
+        res.replay = {"text": text, "observed": str(p_.resolution), "api_reproduced": bad}
+        res.verdict = VIOLATED if bad else INCONCLUSIVE
+        res.detail = "%r is not capturable as an amount: %r -> %s" % (ms, text, p_.resolution)
+    else:
+        res.detail = r
+    out.append(res)
     out.append(T.groups_disjoint("C08", 138, ["n_%d" % k for k in range(1, 32)]))
     out.append(T.groups_disjoint("C08", 138, ["d_" + u for u in W.UNITS]))
     return out
